@@ -769,6 +769,14 @@ Json gen_plan(const std::string &prop, const std::string &tier, u64 base_seed, u
     else if (prop == "C20") gen_c20(g);
     else if (prop == "C18") gen_threads(g, plan);
     else gen_history(g);
+    {
+        // enormous delivery lists are only paired with small objects: with forced checks every entry costs a CRC over its
+        // payload, and 10^5 entries x megabyte fragments is hours of legitimate work that the watchdog would call a hang
+        i64 maxlen = 0;
+        for (auto &o : g.ops.a) if (o["op"].str() == "PUT") maxlen = std::max(maxlen, o["len"].num());
+        if (maxlen > 16384)
+            for (auto &o : g.ops.a) if (o.has("dl") && o["dl"].size() > 1000) { Json cut = Json::arr(); for (size_t i = 0; i < 40; i++) cut.push(o["dl"][i]); o.set("dl", cut); }
+    }
     if (g.cells.size()) plan.set("cells", g.cells);
     if (!plan.has("threads")) plan.set("ops", g.ops);   // thread plans set their own set-up "ops"
     return plan;
